@@ -165,6 +165,11 @@ READ_CASES = [
     ("#CRTFv0\nbox[[12deg, 21deg], [10deg, 20deg]], coord=J2000\n",
      lambda rs: type(rs[0]).__name__ == 'RectangleSkyRegion' and abs(rs[0].center.ra.deg - 11) < 1e-9 and abs(rs[0].center.dec.deg - 20.5) < 1e-9
      and abs(rs[0].width.to_value(u.deg) - 2) < 1e-9 and abs(rs[0].height.to_value(u.deg) - 1) < 1e-9),
+    # every vertex of a multi-point region carries its own notation / unit
+    ("#CRTFv0\npoly[[18h12m24s, -23d11m00s], [273.2deg, -23.2deg], [4.77rad, -0.40rad]], coord=J2000\nline[[18:12:24.0, -23.11.00.0], [273.3deg, -23.3deg]], coord=J2000\n",
+     lambda rs: [type(r).__name__ for r in rs] == ['PolygonSkyRegion', 'LineSkyRegion']
+     and all(abs(a - b) < 1e-6 for a, b in zip(rs[0].vertices.ra.deg, [273.1, 273.2, 273.30086827])) and all(abs(a - b) < 1e-6 for a, b in zip(rs[0].vertices.dec.deg, [-23.18333333, -23.2, -22.91831181]))
+     and abs(rs[1].start.ra.deg - 273.1) < 1e-9 and abs(rs[1].end.ra.deg - 273.3) < 1e-9 and abs(rs[1].end.dec.deg + 23.3) < 1e-9),
     # a default set by a global line stays in force until THAT key is set again
     ("#CRTFv0\nglobal coord=GALACTIC, color=blue\nglobal linewidth=3\ncircle[[10deg, 20deg], 3arcsec]\nglobal color=red\ncircle[[11deg, 21deg], 3arcsec]\n",
      lambda rs: len(rs) == 2 and all(type(r).__name__ == 'CircleSkyRegion' and r.center.frame.name == 'galactic' for r in rs)
